@@ -74,7 +74,11 @@ theorem softplus_inv_softplus (x : ℝ) :
 
 theorem softplus_softplus_inv {y : ℝ} (hy : 0 < y) :
     SoftPlus.transform ({} : NoParams ℝ) (SoftPlus.inverse {} y) = y := by
-  simp only [SoftPlus.inverse, SoftPlus.transform, softplus_eq, expm1_eq, log_eq]
+  -- whichever way the source orders the sum `log(−expm1(−y)) + y`
+  have hinv : SoftPlus.inverse ({} : NoParams ℝ) y = Real.log (-(Real.exp (-y) - 1)) + y := by
+    simp only [SoftPlus.inverse, expm1_eq, log_eq] <;> ring
+  rw [hinv]
+  simp only [SoftPlus.transform, softplus_eq]
   have h1 : Real.exp (-y) < 1 := by rw [Real.exp_lt_one_iff]; linarith
   have hpos : 0 < -(Real.exp (-y) - 1) := by linarith
   rw [Real.exp_add, Real.exp_log hpos]
@@ -109,12 +113,26 @@ theorem leaky_init_wf {m : ℝ} (hm : 0 < m) : LeakyWF (LeakyTanh.init m) := by
   refine ⟨hm, ?_, rfl⟩
   simp only [LeakyTanh.init, exp_eq]; exact Real.exp_pos _
 
+/-- CANONICAL FORM of the generated `LeakyTanh.transform` (all later proofs go through it, so they do not depend on how the
+source spells the branch test, orders the two `where` branches or the sum) -/
+theorem leaky_transform_def (p : LeakyTanh ℝ) (x : ℝ) :
+    p.transform x = Jnp.where (decide (Jnp.abs x ≥ p.max_val)) (p.linear_grad * x + Jnp.sign x * p.intercept) (Transc.tanh x) := by
+  unfold LeakyTanh.transform
+  by_cases h : p.max_val ≤ |x| <;> simp [h, jabs_eq, where_true, where_false] <;> ring
+
+/-- canonical form of the generated `LeakyTanh.transform_and_log_det` -/
+theorem leaky_tld_def (p : LeakyTanh ℝ) (x : ℝ) :
+    p.transform_and_log_det x = (p.transform x,
+      Jnp.sumElem (Jnp.where (decide (Jnp.abs x ≥ p.max_val)) (Transc.log p.linear_grad) (tanhLogGrad x))) := by
+  unfold LeakyTanh.transform_and_log_det
+  by_cases h : p.max_val ≤ |x| <;> simp [h, jabs_eq, where_true, where_false]
+
 /-- the forward and backward branch tests select the same piece — at `|x| = m` too -/
 theorem leaky_branch_agree {p : LeakyTanh ℝ} (h : LeakyWF p) (x : ℝ) :
     (p.max_val ≤ |x|) ↔ (Real.tanh p.max_val ≤ |p.transform x|) := by
   have hm := h.m_pos; have hg := h.g_pos
   have htm := tanh_pos hm
-  unfold LeakyTanh.transform
+  rw [leaky_transform_def]
   simp only [jabs_eq, ge_iff_le, tanh_eq]
   by_cases hx : p.max_val ≤ |x|
   · simp only [hx, decide_true, where_true, true_iff]
@@ -142,7 +160,7 @@ theorem leaky_left {p : LeakyTanh ℝ} (h : LeakyWF p) (x : ℝ) : p.inverse (p.
   by_cases hx : p.max_val ≤ |x|
   · have hy := hag.mp hx
     have hT : p.transform x = p.linear_grad * x + Jnp.sign x * p.intercept := by
-      unfold LeakyTanh.transform; simp [hx]
+      rw [leaky_transform_def]; simp [hx]
     unfold LeakyTanh.inverse
     simp only [jabs_eq, ge_iff_le, tanh_eq, hy, decide_true, where_true]
     rcases le_or_gt 0 x with h0 | h0
@@ -157,7 +175,7 @@ theorem leaky_left {p : LeakyTanh ℝ} (h : LeakyWF p) (x : ℝ) : p.inverse (p.
       rw [jsign_neg hyn, hT, jsign_neg h0]; field_simp; ring
   · have hy : ¬ Real.tanh p.max_val ≤ |p.transform x| := fun hh => hx (hag.mpr hh)
     have hT : p.transform x = Real.tanh x := by
-      unfold LeakyTanh.transform; simp [hx]
+      rw [leaky_transform_def]; simp [hx]
     unfold LeakyTanh.inverse
     simp only [jabs_eq, ge_iff_le, tanh_eq, hy, decide_false, where_false, artanh_eq]
     rw [hT, Real.artanh_tanh]
@@ -178,7 +196,7 @@ theorem leaky_right {p : LeakyTanh ℝ} (h : LeakyWF p) (y : ℝ) : p.transform 
         rw [hxv]; have := div_nonneg (sub_nonneg.mpr hy') hg.le; linarith
       have hxp : 0 < p.inverse y := lt_of_lt_of_le hm hxge
       have habs : p.max_val ≤ |p.inverse y| := by rw [abs_of_pos hxp]; exact hxge
-      unfold LeakyTanh.transform
+      rw [leaky_transform_def]
       simp only [jabs_eq, ge_iff_le, habs, decide_true, where_true, jsign_pos hxp]
       rw [hxv, h.icpt]; field_simp; ring
     · have hy' : Real.tanh p.max_val ≤ -y := by rwa [abs_of_neg h0] at hy
@@ -191,7 +209,7 @@ theorem leaky_right {p : LeakyTanh ℝ} (h : LeakyWF p) (y : ℝ) : p.transform 
         linarith
       have hxn : p.inverse y < 0 := by linarith
       have habs : p.max_val ≤ |p.inverse y| := by rw [abs_of_neg hxn]; linarith
-      unfold LeakyTanh.transform
+      rw [leaky_transform_def]
       simp only [jabs_eq, ge_iff_le, habs, decide_true, where_true, jsign_neg hxn]
       rw [hxv, h.icpt]; field_simp; ring
   · have hylt : |y| < Real.tanh p.max_val := not_le.mp hy
@@ -200,7 +218,7 @@ theorem leaky_right {p : LeakyTanh ℝ} (h : LeakyWF p) (y : ℝ) : p.transform 
     have hxm : ¬ p.max_val ≤ |p.inverse y| := by rw [hI]; exact not_le.mpr (abs_artanh_lt hylt)
     have hyI : y ∈ Ioo (-1 : ℝ) 1 := by
       constructor <;> [linarith [neg_abs_le y]; linarith [le_abs_self y]]
-    unfold LeakyTanh.transform
+    rw [leaky_transform_def]
     simp only [jabs_eq, ge_iff_le, hxm, decide_false, where_false, tanh_eq]
     rw [hI]; exact Real.tanh_artanh hyI
 
